@@ -637,7 +637,11 @@ fn run_isolated(check: &dyn Check, tier: Tier, seed: u64, plan: &Plan, acc: &mut
 
 pub fn run_check(check: &dyn Check, tier: Tier, seed: u64) -> i32 {
     let start = Instant::now();
-    let plan = check.plan(tier);
+    let mut plan = check.plan(tier);
+    // experiments only (sensitivity runs): override the number of random cases
+    if let Some(n) = std::env::var("VERIF_CASES").ok().and_then(|s| s.parse::<u64>().ok()) {
+        plan.cases = n;
+    }
     let known = Known::load();
     let mut acc = Acc::default();
     let mut failures: Vec<(Failure, Option<Tape>)> = vec![];
